@@ -46,11 +46,11 @@ RULE = (
     "conversions between distinct frames, hence is non-trivial; cases are distinct by construction (distinct tuples)"
 )
 BOUNDS = {
-    "quick": "21 frames (10 built-in, 2 stations + 1 equatorial station, Kepler-orbit frames None/QSW/TNW, plain-StateVector frames "
-    "None/QSW/TNW, Moon, Sun); LEO state: all 21x20x20 triples + repeat pass; GEO and ground point: all ordered pairs (round trip and "
+    "quick": "21 frames (10 built-in, 2 stations + 1 equatorial station, Kepler-orbit frames None/QSW/TNW (references keplerian-EME2000 / keplerian-TEME / cartesian-MOD), plain-StateVector frames "
+    "None/QSW/TNW (references cartesian-MOD / cartesian-TEME / keplerian-G50), Moon, Sun); LEO state: all 21x20x20 triples + repeat pass; GEO and ground point: all ordered pairs (round trip and "
     "as tail of a triple) + finite differences; 5 dates (real EOP) / 2 (zero) / 1+1 (missing: pass, warning); reference edges and "
     "matrix structure on 16 / 5 / 3 / 3 dates (incl. |sin Omega| ~ 1 before, inside and after 1992-02-27..1997-02-27); re-binding "
-    "histories: 7 frame kinds x reset/no reset x 2 request orders x 3 bindings on 1 date (real) + 1 (zero); error policy: Date must raise",
+    "histories: 8 frame kinds x reset/no reset x 2 request orders x 3 bindings on 1 date (real) + 1 (zero); error policy: Date must raise",
     "thorough": "21 frames, all triples + repeat pass for 4 states (LEO, GEO, ground point, HEO perigee) x 16 dates x 4 configurations; "
     "histories on 4 + 2 + 1 + 1 dates",
 }
@@ -224,17 +224,25 @@ def get_ctx(dt):
     date = mk_date(dt)
     for name, lla in STATIONS.items():
         create_station(name, lla)
-    orb = Orbit(LOF_KEP, date, "keplerian", "EME2000", "Kepler")
-    orbit2frame("O0", orb, None)
-    orbit2frame("OQ", orb, "QSW")
-    orbit2frame("OT", orb, "TNW")
-    refs = {"O0/OQ/OT": orb}
     from beyond.orbits import StateVector
 
+    # references deliberately NOT all "cartesian in the parent frame (EME2000)": one object per frame, given in other
+    # frames and forms, so that code working on the reference instead of a copy of it shows
+    refs = {}
+    for name, orientation, frame, form in (("O0", None, "EME2000", "keplerian"), ("OQ", "QSW", "TEME", "keplerian"), ("OT", "TNW", "MOD", "cartesian")):
+        orb = Orbit(LOF_KEP, date, "keplerian", frame, "Kepler")
+        if form != "keplerian":
+            orb.form = form
+        refs[name] = orb
+        orbit2frame(name, orb, orientation)
+
     sv_rv = tb.kep_to_cart(*SV_KEP, Earth.mu)
-    for name, orientation in (("V0", None), ("VQ", "QSW"), ("VT", "TNW")):
-        refs[name] = StateVector(np.array(sv_rv, dtype=float), date, "cartesian", "EME2000")  # one object per frame
-        orbit2frame(name, refs[name], orientation)
+    for name, orientation, frame, form in (("V0", None, "MOD", "cartesian"), ("VQ", "QSW", "TEME", "cartesian"), ("VT", "TNW", "G50", "keplerian")):
+        ref = StateVector(np.array(sv_rv, dtype=float), date, "cartesian", frame)  # plain state, no propagator
+        if form != "cartesian":
+            ref.form = form
+        refs[name] = ref
+        orbit2frame(name, ref, orientation)
     create_station("SE", SE_SITE, equatorial=True)
     solarsystem.get_frame("Moon")
     solarsystem.get_frame("Sun")
@@ -263,7 +271,7 @@ def get_ctx(dt):
     )
     for f in ("S1", "S2", "SE"):
         refs[f] = cur["frames"][f].center.offset  # the station coordinates handed to the centre
-    cur["refs"] = {k: (obj, np.array(obj, dtype=float).copy()) for k, obj in refs.items()}
+    cur["refs"] = {k: (obj, ref_state(obj)) for k, obj in refs.items()}
     kind = _G["kind"]
     cur["ref"] = er.EarthRotation(mjd, sod, ref_eop(kind, mjd), _nut_table())
     # rate of the axes "of date" at this instant (neglected by the velocity map, see fd_plan); 1e-3 for its own differencing
@@ -416,13 +424,21 @@ def check_repeat(ctx, cfg, si, t, frames=FRAMES, a_list=None):
     t.outcome(("repeat", bool(bad1 or bad2)))
 
 
+def ref_state(obj):
+    """Observable content of a reference object: its six numbers, and the frame and form they are expressed in."""
+    fr = getattr(getattr(obj, "frame", None), "name", None)
+    fo = getattr(getattr(obj, "form", None), "name", None)
+    return [np.array(obj, dtype=float).tolist(), fr, fo]
+
+
 def check_refs(ctx, case, t):
     for name, (obj, snap) in ctx["refs"].items():
-        now = np.array(obj, dtype=float)
-        if not np.array_equal(now, snap):
-            t.fail("reference-mutated", "conversions leave the state a frame was created from untouched", case, snap.tolist(), now.tolist(),
-                   f"reference of {name} moved by {float(np.linalg.norm(now[:3] - snap[:3])):.3e} m")
-            ctx["refs"][name] = (obj, now.copy())  # report each corruption once
+        now = ref_state(obj)
+        if now != snap:
+            t.fail("reference-mutated", "conversions leave the state a frame was created from untouched", case, snap, now,
+                   f"reference of {name}: {snap[1]}/{snap[2]} -> {now[1]}/{now[2]}, numbers changed by "
+                   f"{float(np.max(np.abs(np.array(now[0]) - np.array(snap[0])))):.3e}")
+            ctx["refs"][name] = (obj, now)  # report each corruption once
 
 
 def run_triples(ctx, cfg, si, t, frames=FRAMES, a_list=None):
@@ -703,8 +719,17 @@ def check_error_policy(cfg, dt, t):
 # ---------------------------------------------------------------------------
 # (f) histories: a frame name re-bound to another definition, request order of conversions, repeated calls
 
-HIST_KINDS = ["lof-QSW", "lof-TNW", "orbit-inertial", "sv-QSW", "sv-inertial", "station", "station-eq"]
-HIST_GROUP = {"lof-QSW": "lof", "lof-TNW": "lof", "sv-QSW": "lof", "orbit-inertial": "translation", "sv-inertial": "translation",
+HIST_KINDS = ["lof-QSW", "lof-TNW", "orbit-inertial", "sv-QSW", "sv-TNW-kep", "sv-inertial", "station", "station-eq"]
+# frame and form in which the reference of each kind is given, per definition number (never "cartesian in EME2000" twice)
+HIST_REF = {
+    "lof-QSW": [("TEME", "keplerian"), ("MOD", "cartesian")],
+    "lof-TNW": [("MOD", "cartesian"), ("EME2000", "keplerian")],
+    "orbit-inertial": [("EME2000", "keplerian"), ("G50", "cartesian")],
+    "sv-QSW": [("TEME", "cartesian"), ("G50", "cartesian")],
+    "sv-TNW-kep": [("TOD", "keplerian"), ("EME2000", "keplerian")],
+    "sv-inertial": [("MOD", "cartesian"), ("EME2000", "cartesian")],
+}
+HIST_GROUP = {"lof-QSW": "lof", "lof-TNW": "lof", "sv-QSW": "lof", "sv-TNW-kep": "lof", "orbit-inertial": "translation", "sv-inertial": "translation",
               "station": "station", "station-eq": "translation"}
 HIST_KEPS = [[7100e3, 0.003, 0.6, 1.1, 0.9, 0.4], [7600e3, 0.02, 1.45, 4.0, 2.2, 3.3]]
 HIST_SITES = [(48.35, 11.78, 450.0), (-25.89, 27.69, 1400.0)]
@@ -721,11 +746,14 @@ def hist_create(name, hkind, d, date):
 
     if hkind in ("station", "station-eq"):
         return create_station(name, HIST_SITES[d], equatorial=(hkind == "station-eq")), None
+    frame, form = HIST_REF[hkind][d]
     if hkind.startswith("sv-"):
-        ref = StateVector(np.array(tb.kep_to_cart(*HIST_KEPS[d], Earth.mu), dtype=float), date, "cartesian", "EME2000")
+        ref = StateVector(np.array(tb.kep_to_cart(*HIST_KEPS[d], Earth.mu), dtype=float), date, "cartesian", frame)
     else:
-        ref = Orbit(list(HIST_KEPS[d]), date, "keplerian", "EME2000", "Kepler")
-    orientation = {"lof-QSW": "QSW", "lof-TNW": "TNW", "sv-QSW": "QSW"}.get(hkind)
+        ref = Orbit(np.array(tb.kep_to_cart(*HIST_KEPS[d], Earth.mu), dtype=float), date, "cartesian", frame, "Kepler")
+    if form != "cartesian":
+        ref.form = form
+    orientation = {"lof-QSW": "QSW", "lof-TNW": "TNW", "sv-QSW": "QSW", "sv-TNW-kep": "TNW"}.get(hkind)
     return orbit2frame(name, ref, orientation, exists_warning=False), ref
 
 
@@ -769,7 +797,7 @@ def run_history(cfg, dt, hkind, restore_between, order, t):
                 world.restore(_G["snap"])
             _, ref = hist_create("H", hkind, d, date)
             _, ref_f = hist_create(f"F{k}", hkind, d, date)
-            snaps = [(r, np.array(r, dtype=float).copy()) for r in (ref, ref_f) if r is not None]
+            snaps = [(r, ref_state(r)) for r in (ref, ref_f) if r is not None]
             for X, rv in probes.items():
                 x = StateVector(rv.copy(), date, "cartesian", X)
                 vias = [c for c in ("MOD", "ITRF") if c != X]
@@ -802,9 +830,10 @@ def run_history(cfg, dt, hkind, restore_between, order, t):
                 if not (dp <= tp and dv <= tv):
                     t.fail(f"history/roundtrip/{grp}", "A->B->A is the identity", case, x0.tolist(), xb.tolist(), f"{what}->{X}: {dp:.3e} m, {dv:.3e} m/s")
             for r, snap in snaps:
-                if not np.array_equal(np.array(r, dtype=float), snap):
-                    t.fail("reference-mutated", "conversions leave the state a frame was created from untouched", case, snap.tolist(),
-                           np.array(r, dtype=float).tolist(), f"history {hkind} binding {k}")
+                if ref_state(r) != snap:
+                    now = ref_state(r)
+                    t.fail("reference-mutated", "conversions leave the state a frame was created from untouched", case, snap, now,
+                           f"history {hkind} binding {k}: {snap[1]}/{snap[2]} -> {now[1]}/{now[2]}")
     except LibraryRaised as e:
         t.fail(f"history/raises/{grp}", "re-created frames convert like any other", case, "a state", str(e))
     finally:
